@@ -218,3 +218,69 @@ func VerifC17ParamOverride() {
 	sort.Strings(want)
 	vAssert(strings.Join(seen, ",") == strings.Join(want, ","), "parameters are dropped or duplicated when the code re-declares some of them: "+strings.Join(seen, ","))
 }
+
+func init() {
+	vRegister("VerifC17TitleNoCrash", VerifC17TitleNoCrash)
+	vRegister("VerifC17EnumBlocks", VerifC17EnumBlocks)
+}
+
+// C17 (never crash): the title/description splitter applied to the head of every meta, model,
+// route and operation comment, on arbitrary short comment lines
+func VerifC17TitleNoCrash() {
+	n := 1 + vChoice("lines", vParam("maxlines"))
+	var lines []string
+	for i := 0; i < n; i++ {
+		lines = append(lines, vBytes("line", vParam("linelen")))
+	}
+	title, desc := collectScannerTitleDescription(lines)
+	vCover("split")
+	vAssert(len(title)+len(desc) <= n, "the splitter invents lines")
+}
+
+// C17 (faithful): the values of a swagger:enum type are all the typed constants of the package,
+// however they are spread over const declarations
+func VerifC17EnumBlocks() {
+	split := vChoice("constBlocks", 3) // 0: one block, 1: two blocks, 2: three declarations
+	untypedFollowers := vBool2("iotaStyleFollowers")
+	src := "package api\n\n// Status of an order\n//\n// swagger:enum Status\ntype Status string\n\n"
+	consts := []string{"Placed Status = \"placed\"", "Approved Status = \"approved\"", "Shipped Status = \"shipped\""}
+	_ = untypedFollowers
+	switch split {
+	case 0:
+		src += "const (\n\t" + consts[0] + "\n\t" + consts[1] + "\n\t" + consts[2] + "\n)\n\n"
+	case 1:
+		src += "const (\n\t" + consts[0] + "\n\t" + consts[1] + "\n)\n\nconst (\n\t" + consts[2] + "\n)\n\n"
+	default:
+		src += "const " + consts[0] + "\n\nconst " + consts[1] + "\n\nconst " + consts[2] + "\n\n"
+	}
+	src += "// Order is a model\n//\n// swagger:model\ntype Order struct {\n\tStatus Status `json:\"status\"`\n}\n"
+	sw, err := vScan([]vPkgSrc{{"example.com/api", src}}, []string{"example.com/api"}, nil, true)
+	vCover("scanned")
+	vAssert(err == nil, "the scanner fails on an enum type")
+	if err != nil {
+		return
+	}
+	def, ok := sw.Definitions["Order"]
+	vAssert(ok, "the model has no definition")
+	if !ok {
+		return
+	}
+	p, ok := def.Properties["status"]
+	vAssert(ok, "the enum-typed property is missing")
+	if !ok {
+		return
+	}
+	enum := p.Enum
+	if len(enum) == 0 && p.Ref.String() != "" {
+		if d, has := sw.Definitions[strings.TrimPrefix(p.Ref.String(), "#/definitions/")]; has {
+			enum = d.Enum
+		}
+	}
+	got := map[string]bool{}
+	for _, e := range enum {
+		if s, isS := e.(string); isS {
+			got[s] = true
+		}
+	}
+	vAssert(len(enum) == 3 && got["placed"] && got["approved"] && got["shipped"], "the enum of the scanned property is not the set of constants of its type")
+}
